@@ -1757,6 +1757,13 @@ class Frame:
         return g_cmp(op, a if not isinstance(a, (str, bool)) and a is not None else as_term(a),
                      b if not isinstance(b, (str, bool)) and b is not None else as_term(b))
 
+    def e_NamedExpr(self, e, st):
+        # `(x := value)`: the value, with x bound from here on (the binding is made in the state the expression is
+        # evaluated in: a test evaluated before the branches fork binds it for both)
+        v = self.eval(e.value, st)
+        self.assign(e.target, v, st)
+        return v
+
     def e_IfExp(self, e, st):
         g = known_truth(truth_of(self.eval(e.test, st)), list(Event.prefix) + st.guards)
         if g == TRUE:
